@@ -140,6 +140,71 @@ def run_failed_overlap(params, ch):
         s.finish()
 
 
+def run_reconnect_overlap(params, ch):
+    """One thread opens a stream while another thread closes the connection (optionally), connects again and opens a stream of its
+    own.  An OPEN that was prepared before the reconnect may reach the new connection: whatever the interleaving, the streams that
+    are open on one connection have different ids."""
+    key = ('reconnect', params['close'])
+    if key not in _WARM:
+        _WARM.add(key)
+        from ..chooser import FixedChooser
+        run_reconnect_overlap(params, FixedChooser())
+    s = Session(ch, CFG, twin='sync', lock_factory=SchedLock, max_calls=5000)
+    try:
+        if s.op(('connect',)) != ('ok', True):
+            raise HarnessError('connect failed')
+        s.dev._local_id = params['start']
+        for i in range(params['before']):
+            s.op(('gen-start', 'hold%d' % (5 - i), {'decode': False}))
+        sc = Scheduler(ch, max_steps=20000, trace_codes=codes())
+        io = s.dev._io_manager
+        from ..harness import find_locks
+        sc.locks = list(find_locks(s.dev, io).values())
+        s.env.sched = sc
+        kw = {'decode': False, 'transport_timeout_s': 0.5, 'read_timeout_s': 0.5}
+
+        def recon():
+            out = []
+            if params['close']:
+                out.append(s.op(('close',)))
+            out.append(s.op(('connect',)))
+            out.append(s.op(('gen-start', 'hold1', dict(kw))))
+            return out
+        sc.spawn(lambda: s.op(('gen-start', 'hold0', dict(kw))), name='open0')
+        sc.spawn(recon, name='reconnect')
+        results = sc.run()
+        s.env.sched = None
+        if sc.verdict and sc.verdict.startswith('error'):
+            raise HarnessError(sc.verdict)
+        viol = []
+        if sc.verdict:
+            viol.append({'msg': 'scheduler verdict: %s' % sc.verdict})
+        # streams the device of the LAST connection considers open, by local id
+        sess, cur = [], None
+        for w, p in s.env.events:
+            if w == 'H' and p.cmd == b'CNXN':
+                cur = []
+                sess.append(cur)
+            elif w == 'H' and p.cmd == b'OPEN' and cur is not None:
+                cur.append(p.a0)
+                if not 1 <= p.a0 <= 0xFFFFFFFF:
+                    viol.append({'msg': 'OPEN with local id %d' % p.a0})
+        for k, ids in enumerate(sess):
+            if len(set(ids)) != len(ids):
+                viol.append({'msg': 'connection #%d: two streams that are open at the same time share a local id: OPEN ids %r (thread results %r)' % (k, ids, [r if not isinstance(r, list) else [x[:2] for x in r] for r in results])})
+        for code, msg in s.env.issues:
+            if code in ('dup-id', 'open'):
+                viol.append({'msg': '%s: %s' % (code, msg)})
+        dev = [c for c in ch.choices if c]
+        flat = tuple(tuple(ids) for ids in sess)
+        return {'outcome': (flat,), 'viol': viol, 'states': sc.states, 'trans': sc.steps,
+                'nontrivial': (params['start'], params['close'], params['before'], tuple(ch.choices)) if dev else None,
+                'sample': dict(params, open_ids_per_connection=[list(x) for x in flat], scheduling_points=sc.steps)}
+    finally:
+        s.env.sched = None
+        s.finish()
+
+
 def run_tasks(params, ch):
     n = params['n']
     s = Session(ch, CFG, twin='async', max_calls=5000)
@@ -222,6 +287,8 @@ def _parts(tier):
                     what='2 concurrent opens with finite transport timeouts: a lock acquire that is given a timeout may expire while the lock is held', bound='preemptions <= %d, <=1 expired lock wait' % pb))
     out.append(Part('failed-open-overlap', [{'start': st} for st in (STARTS if tier == 'thorough' else (0, 2**32 - 2))], run_failed_overlap, {'sched': pb, 'dev-order': 0}, split=2,
                     what='an open refused by the device fails while another open overlaps it, then a third open', bound='preemptions <= %d' % pb))
+    out.append(Part('reconnect-overlap', [{'start': st, 'close': c, 'before': b} for st in (0, 2**32 - 2) for c in (True, False) for b in (0, 1)], run_reconnect_overlap, {'sched': pb - 1, 'dev-order': 0}, split=2,
+                    what='an open overlapping close()+connect()+open in another thread: OPEN ids of each connection pairwise different', bound='preemptions <= %d' % (pb - 1), min_outcomes=1))
     out.append(Part('tasks', [{'start': st, 'n': n} for st in STARTS for n in (2, 3)], run_tasks, {'io-order': None, 'dev-order': None}, split=1,
                     what='asyncio tasks, every I/O completion order and device wire order', bound='complete'))
     out.append(Part('sequential-wrap', [{'start': st, 'twin': t} for st in STARTS + [2**32 - 5, 2**31 - 1] for t in ('sync', 'async')], run_seq,
